@@ -18,7 +18,7 @@ Definition src_xfer : xprog := mkX
   (* rest of the loop body *)
     [SIf (CAttempts) [SBreak];
      SIf (CBadLength) [SBreak];
-     SIf (CNonNull Vrsp) [SClearSd Vrsp; SDestroy Vrsp];
+     SIf (CNonNull Vrsp) [SClearSd Vrsp; SDestroy Vrsp; SNull Vrsp];
      SIf (CSdOpen Vreq) [SCloseSd Vreq; SClearSd Vreq];
      SDo (SSetRetry Vreq);
      SDo (SSleep Vreq);
